@@ -182,7 +182,8 @@ def main(chk):
                        "array/arguments/unpacking/keyword arguments/object/map/embedded string, duplicate keys and keywords, `**` unpacking, "
                        "objects and maps with 10-11 keys (beyond Go's 8-entry bucket) iterated/printed/compared/unpacked, equality of objects / maps / "
                        "nested arrays / has? whose 11-12 values define `==` themselves (hooks must run in key order), variable calls with "
-                       "arguments (open finding), seeded random "
+                       "arguments (open finding), arguments / keywords / literals spread over several lines (also after 1100 spaces or tabs), lonely chains on nil "
+                       "receivers, arrays of 60 objects whose S / == / <=> print, seeded random "
                        "nestings to depth 3; each program evaluated %d times in one process and in %d further process(es); all runs must "
                        "agree with each other, with source order (marker oracle) and with PanCore. stdin-reading sub-expressions (`<>`) "
                        "are not modelled and not generated." % (R, P))
